@@ -247,6 +247,68 @@ func runC19(c *eng.Ctx) {
 		}
 	}
 
+	// R8: every full-size base block can be found again. The lookup table is
+	// keyed by the 32-bit weak hash, which collides; each block index is therefore
+	// ADDED to the entry of its weak hash (append to what is there), on every
+	// iteration. A table that keeps one index per weak hash makes the other
+	// colliding blocks unreachable and an unchanged target is sent with literals.
+	nTab := 0
+	eng.EachInstr(del, func(i ssa.Instruction) {
+		mu, ok := i.(*ssa.MapUpdate)
+		if !ok || !strings.HasSuffix(eng.Render(mu.Key), ".Weak") {
+			return
+		}
+		nTab++
+		// value = append(table[key], index)
+		appends := false
+		if call, ok := mu.Value.(*ssa.Call); ok && eng.CalleeName(call) == "builtin:append" && len(call.Call.Args) > 0 {
+			if lk, ok := eng.Unwrap(call.Call.Args[0]).(*ssa.Lookup); ok && lk.X == mu.Map && eng.Render(lk.Index) == eng.Render(mu.Key) {
+				appends = true
+			}
+		}
+		g := eng.Guards(mu)
+		cond := false
+		for _, a := range g {
+			if lk, ok := a.V.(*ssa.Lookup); ok && lk.X == mu.Map {
+				cond = true // recorded only if (not) already present
+			}
+			if ex, ok := a.V.(*ssa.Extract); ok {
+				if lk, ok := ex.Tuple.(*ssa.Lookup); ok && lk.X == mu.Map {
+					cond = true
+				}
+			}
+		}
+		c.Check("R8", "table-keeps-every-block", mu.Pos(), appends && !cond, "each base block's index is appended to the candidates of its weak hash, unconditionally (colliding blocks all stay reachable)", eng.Render(mu.Value)[:min(160, len(eng.Render(mu.Value)))])
+	})
+	if nTab != 1 {
+		c.Problem("R8", "expected one weak-hash table insertion in Deltify, found %d", nTab)
+	}
+	// … and the search tries every candidate of the weak hash: some strong
+	// comparison sits in a range loop (over the table entry), innermost.
+	nCmp, looped := 0, 0
+	for _, call := range eng.CallsNamed(del, "bytes.Equal") {
+		if !strings.Contains(eng.RenderCall(call.Common()), ".Strong") {
+			continue
+		}
+		nCmp++
+		var inner *eng.LoopOf
+		for _, b := range del.Blocks {
+			if l := eng.FindLoop(b); l != nil && l.Body[call.Block()] && (inner == nil || len(l.Body) < len(inner.Body)) {
+				inner = l
+			}
+		}
+		if inner != nil {
+			for bb := range inner.Body {
+				for _, in := range bb.Instrs {
+					if phi, ok := in.(*ssa.Phi); ok && phi.Comment == "rangeindex" {
+						looped++
+					}
+				}
+			}
+		}
+	}
+	c.Check("R8", "all-candidates-tried", del.Pos(), nCmp >= 1 && looped >= 1, "the strong hash is compared against every candidate block of the weak hash (a range loop over the table entry), not just one", fmt.Sprintf("strong comparisons=%d, inside a candidate loop=%d", nCmp, looped))
+
 	// R7.
 	if patch := c.MustFunc("R7", rsyncPkg, "Engine.Patch"); patch != nil {
 		for _, call := range eng.Calls(patch) {
